@@ -84,3 +84,39 @@ Definition is_inbox_anycase (n : name) : bool := upper_matches n INBOX.
 
 (* pymap.parsing.specials.Mailbox: any case of INBOX is the name 'INBOX' *)
 Definition norm (n : name) : name := if is_inbox_anycase n then INBOX else n.
+
+(* BaseSession._new_name: the name a client may give to a new mailbox.
+   strip: one trailing hierarchy delimiter is only a declaration (RFC 3501
+   6.3.3) unless the name is the delimiter itself; a name that is (a case
+   variant of) INBOX after that exists already (inr 1 = ALREADYEXISTS); a
+   first component that is a case variant of INBOX other than 'INBOX' is
+   refused (inr 4 = CANNOT). *)
+Fixpoint last_is_delim (n : name) : bool :=
+  match n with
+  | [] => false
+  | [c] => (c =? DELIM)%N
+  | _ :: n' => last_is_delim n'
+  end.
+
+Definition strip1 (n : name) : name :=
+  if last_is_delim n && negb (name_eqb n [DELIM]) then removelast n else n.
+
+Definition first_part (n : name) : name := hd [] (split n).
+
+(* BaseSession._check_inbox_case *)
+Definition inbox_case_bad (n : name) : bool :=
+  let f := first_part n in negb (name_eqb f INBOX) && is_inbox_anycase f.
+
+Definition new_name (strip : bool) (n : name) : name + N :=
+  let n1 := if strip then strip1 n else n in
+  let f := first_part n1 in
+  if is_inbox_anycase f then
+    if name_eqb n1 f then inr 1%N
+    else if name_eqb f INBOX then inl n1 else inr 4%N
+  else inl n1.
+
+(* do_create / do_rename guard + _new_name: inr 0 = "Cannot ... INBOX." *)
+Definition create_name (n0 : name) : name + N :=
+  let n := norm n0 in if name_eqb n INBOX then inr 0%N else new_name true n.
+Definition rename_dest (b0 : name) : name + N :=
+  let b := norm b0 in if name_eqb b INBOX then inr 0%N else new_name false b.
